@@ -362,6 +362,9 @@ func (p *provider) createAllSingletonsWithContext(ctx context.Context) error {
 		}
 	}
 
+	// Descriptors whose registration's constructor has already run in this Build
+	constructed := make(map[*Descriptor]struct{})
+
 	// Create instances in dependency order
 	for _, node := range sorted {
 		// Check context before each singleton creation
@@ -409,6 +412,11 @@ func (p *provider) createAllSingletonsWithContext(ctx context.Context) error {
 			continue
 		}
 
+		// ... also when it left every one of its outputs nil
+		if _, done := constructed[descriptor]; done {
+			continue
+		}
+
 		_, err := p.rootScope.createInstance(descriptor)
 		if err != nil {
 			return &ResolutionError{
@@ -416,6 +424,10 @@ func (p *provider) createAllSingletonsWithContext(ctx context.Context) error {
 				ServiceKey:  descriptor.Key,
 				Cause:       err,
 			}
+		}
+
+		for _, output := range descriptor.outputs {
+			constructed[output] = struct{}{}
 		}
 	}
 
